@@ -215,7 +215,8 @@ def run(ctx):
             ctx.case(("resv", D, ch), True, cls="each reserved character escaped")
     # the ninth column's 'nothing here' spellings: empty, and the single '.' that the other columns use for 'no value'
     if ctx.shard == 0:
-        for col9 in ("", "."):
+        # ... and a single valueless flag whose name happens to be a JSON scalar
+        for col9 in ("", ".", "7", "2024", "-1", "1e5", "0", "true", "false", "null", "NaN", "Infinity", '"x"', "[]", "{}"):
             for extra in ([], ["x"], ["extra col", "."], [""]):
                 for c in (("1", "9"), (".", "9"), ("1", ".")):
                     line = "\t".join(["chr1", "src", "gene", c[0], c[1], ".", "+", ".", col9] + extra)
